@@ -21,6 +21,7 @@ SHAPES = {
     "list321": lambda: [3, 2, 1], "tuple34": lambda: (3, 4), "range2": lambda: range(2), "range0": lambda: range(0),
     "np78": lambda: np.array([7, 8]), "strs": lambda: ["ab", "c"],
     "list_n1": lambda: [None, 1], "list_0f": lambda: [0, False, 2], "tuple_e": lambda: ("", "x"),
+    "list_tt": lambda: [(1, 2), (3, 4)], "list_mixnum": lambda: [0.5, 1, 2],
 }
 BIG = 999999
 
@@ -36,6 +37,10 @@ def token(v):
         return "i%d" % int(v)
     if isinstance(v, float):
         return "f" + repr(v)
+    if isinstance(v, tuple):
+        return "t" + "_".join(token(x) for x in v)
+    if isinstance(v, list):
+        return "l" + "_".join(token(x) for x in v)
     return "?" + type(v).__name__
 
 
@@ -238,18 +243,29 @@ class Rec(Collector):
         self.records.append([self.sig, self.model.systems.timestep])
 
 
+W_VALUES = {11: 1, 12: 2, 13: 3, 20: 0.5, 21: 2.0, 30: (2, 3), 31: (4, 1)}     # code -> value; a value keeps type and content
+
+
+def wcode(w):
+    for c, v in W_VALUES.items():
+        if type(v) is type(w) and v == w:
+            return c
+    return 99
+
+
+KNOB = [0]          # a module-level setting of the program, part of every run's signature; changed between two batches
 LABELS = ["dry", "ab", "", "x", "wet season", None]      # the position of a label in this list is part of a run's signature
 
 
 class BatchModel(Model):
-    def __init__(self, stop=3, cstart=0, cfreq=1, d=0, burn=-1, label="dry"):
+    def __init__(self, stop=3, cstart=0, cfreq=1, d=0, burn=-1, label="dry", w=None):
         super().__init__()
         if label not in LABELS:          # a text parameter must arrive as the very value that was declared
             raise Boom("fixture")
         fail = stop == FAILSTOP
         if fail and d % 2 == 1:
             _raise_failure(self)
-        sig = 10000 * LABELS.index(label) + 1000 * stop + 100 * cstart + 10 * cfreq + d
+        sig = 1000000 * KNOB[0] + 100000 * (0 if w is None else wcode(w)) + 10000 * LABELS.index(label) + 1000 * stop + 100 * cstart + 10 * cfreq + d
         self.systems.add_system(Stopper(self, stop, d, fail, burn, (sig, cfreq)))
         self.systems.add_system(Rec("c1", self, sig, cstart, cfreq))
         self.systems.add_system(Rec("c2", self, sig, cstart, cfreq + 1))
@@ -273,11 +289,14 @@ def run_batch(prog):
         scalar = {e[0] for e in grid if len(e) > 2 and e[2] == "scalar" and len(e[1]) == 1}    # declared as the bare value, not a list
         grid = [[e[0], e[1]] for e in grid]
 
+        def real(n, x):
+            return W_VALUES[x] if n == "w" else x
+
         def declared_value(n, v):
-            return v[0] if n in scalar else list(v)
+            return real(n, v[0]) if n in scalar else [real(n, x) for x in v]
         if len(prog) > 1:
             if shared is None:
-                shared = ParameterList({n: list(v) for n, v in grid})
+                shared = ParameterList({n: [real(n, x) for x in v] for n, v in grid})
                 declared = [n for n, _ in grid]
             else:
                 want = [n for n, _ in grid]
@@ -285,7 +304,7 @@ def run_batch(prog):
                     shared.remove_parameter(n)
                 for n, v in grid:
                     if n not in declared:
-                        shared.add_parameter(n, list(v))
+                        shared.add_parameter(n, [real(n, x) for x in v])
                 declared = [n for n in declared if n in want] + [n for n in want if n not in declared]
                 grid = [[n, dict((a, b) for a, b in grid)[n]] for n in declared]     # declaration order of the shared list
             params = shared
@@ -305,6 +324,8 @@ def run_batch(prog):
         res = []
         shapes = []
         sel = "str"
+        knob = (len(events) % 2) if len(prog) > 1 else 0        # the program changes one of its settings between two batches
+        KNOB[0] = knob
         try:
             kw = {} if limit >= BIG else {"max_timesteps": limit}
             # collector selection: one name / a list holding that one name / a list of two names
@@ -318,8 +339,9 @@ def run_batch(prog):
             exc = e
         finally:
             FAILSTOP = -1
+            KNOB[0] = 0
         events.append({"op": "batch_run", "grid": [[n, [("None" if x is None else x) for x in v]] for n, v in grid], "reps": reps, "limit": limit, "two": two is True or two == 1 or two == "tuple2",
-                       "sel": sel, "shapes": shapes, "procs": procs, "failstop": failstop, "failname": FAILNAMES[failkind], "out": outcome(exc), "res": res})
+                       "sel": sel, "shapes": shapes, "knob": knob, "procs": procs, "failstop": failstop, "failname": FAILNAMES[failkind], "out": outcome(exc), "res": res})
     return events
 
 
@@ -336,6 +358,9 @@ def random_batch_program(rng, procs_choices, fail=None):
     ncomb = 1
     for e in grid:
         ncomb *= len(e[1])
+    if rng.random() < 0.25 and ncomb <= 12:
+        grid.append(["w", rng.sample(sorted(W_VALUES), rng.randint(1, 3))])       # numbers of mixed types, tuples (as codes)
+        ncomb *= len(grid[-1][1])
     r = rng.random()
     if r < 0.2:
         grid.append(["label", [rng.choice(LABELS)], "scalar"])       # one text value, declared as the bare string
@@ -420,8 +445,8 @@ def _key(x, y):
 
 
 class SearchModel(Model):
-    def __init__(self, x=0, y=0):
-        super().__init__()
+    def __init__(self, x=0, y=0, seed=None):
+        super().__init__(seed=seed)
         self.key = _key(x, y)
         if SLOW_FIRST and x == 0 and y == 0:
             time.sleep(0.05)              # the first grid point finishes last: completion order differs from grid order
@@ -505,7 +530,9 @@ def search_programs_from_tables(tables, modes, procs_choices, scales, rng, grid=
     for t in tables:
         ncomb, reps = len(t), len(t[0])
         g = grid or ([["x", list(range(ncomb))]] if ncomb != 4 else [["x", [0, 1]], ["y", [0, 1]]])
-        if grid is None and rng.random() < 0.25:
+        if grid is None and rng.random() < 0.2:
+            g = [list(e) for e in g] + [["seed", [rng.choice([5, 0, 123])]]]          # the models are seeded through the grid
+        elif grid is None and rng.random() < 0.25:
             # a grid that lists equal values more than once (1, 1.0 and True are equal; the fixture tells them apart by type)
             if ncomb == 4:
                 g = [["x", [0, 0.0]], ["y", [1, True]]]
